@@ -17,6 +17,16 @@ class Ctx:
     def __init__(self, unit):
         self.rule_args = unit.rule_args
         self.unit = unit
+        self.source_fns = {}
+
+    def add_source(self, sf):
+        def walk(items):
+            for it in items:
+                if it.kind == 'fn':
+                    self.source_fns.setdefault(it.name, '')
+                    self.source_fns[it.name] += (it.body or '')
+                walk(it.children)
+        walk(sf.items)
 
 
 def mark(text, label):
@@ -330,6 +340,7 @@ def build(unit_path, repo=None, extra_tail=''):
             raise Undecided('%s:%d: item without source' % (unit_path, it.lineno))
         if it.source not in sources:
             sources[it.source] = SourceFile(os.path.join(repo, it.source))
+            ctx.add_source(sources[it.source])
         sf = sources[it.source]
         item = sf.find(it.path)
         rule_names = it.rules if it.rules is not None else u.rules
